@@ -82,5 +82,16 @@ def check(rep, prog):
                         n.id in F.reach(c.id) and c.id in F.reach(n.id)]
                 if len(incs) == 1:
                     okb = True
+    if not okb:
+        # a comparison with a constant whose other side is not a plain counter variable (`++count < 2` inside the test, a helper
+        # call, ...) is a bound this rule does not read: undecided.  No comparison with a constant at all: unbounded, a violation.
+        odd = [t for b, cond_ in tests for t in conj(cond_)
+               for t in ([t[2]] if _is(t, 'op', 'not') else [t])
+               if _is(t, 'op') and t[1] in ('<', '<=', '>', '>=') and len(t) == 4 and
+               ((t[3][0] == 'num' and t[2][0] != 'var') or (t[2][0] == 'num' and t[3][0] != 'var'))]
+        if odd:
+            rep.cannot_decide('QNG.tolerance', where(fn, c.line), 'bounded-retry: the retry test `%s` bounds something that is not a '
+                              'plain counter variable' % ir.fmt(odd[0])[:60])
+            return
     rep.add('QNG.tolerance', 'bounded-retry', where(fn, c.line), 'a failed integration is retried a bounded number of times (an exit test of the '
             'loop compares a per-attempt counter with a constant)', okb)
